@@ -14,7 +14,7 @@ Open Scope Z_scope.
 
 Inductive target : Type :=
 | TgGlobal (x : string)                       (* SET GLOBAL x / SET @@GLOBAL.x *)
-| TgSession (explicit : bool) (x : string)    (* explicit: SET @@SESSION.x;  otherwise SET SESSION x / SET x / SET @@x *)
+| TgSession (explicit : bool) (x : string)    (* explicit: SET @@SESSION.x;  otherwise SET SESSION x / SET x / SET @@x (same behaviour) *)
 | TgUser (u : string)                         (* SET @u *)
 | TgPersist (only : bool) (x : string).       (* SET PERSIST x / SET PERSIST_ONLY x *)
 
@@ -49,11 +49,10 @@ Definition target_var (tg : target) : option string :=
 Definition build_target (reg : list sysvar) (tg : target) : outcome :=
   match tg with
   | TgGlobal x => match lookup reg x with Some _ => Accepted | None => Rejected end
-  | TgSession e x =>
-      match lookup reg x with
-      | None => Rejected                                                     (* ErrUnknownSystemVariable *)
-      | Some sv => if e && scope_eqb (v_scope sv) ScGlobal then Rejected else Accepted (* ErrSystemVariableGlobalOnly *)
-      end
+  | TgSession _ x =>
+      (* the parser strips the scope prefix of a target, so even SET @@SESSION.x of a GLOBAL-only x is refused only
+         when the assignment runs (unlike a READ of @@SESSION.x, see build_source) *)
+      match lookup reg x with Some _ => Accepted | None => Rejected end    (* ErrUnknownSystemVariable *)
   | TgUser _ | TgPersist _ _ => Accepted
   end.
 
@@ -258,26 +257,28 @@ Proof.
     inversion Hc2 as [Hv]. exact Hg.
 Qed.
 
-Transparent step.
+Lemma exec_list_single : forall xs s a, exec_list reg xs s [a] = exec_assign reg xs s a.
+Proof. intros xs s a. simpl. destruct (exec_assign reg xs s a) as [x o]. destruct o; reflexivity. Qed.
+
+Lemma lift_same : forall xs o, lift (pers xs) (base xs, o) = (xs, o).
+Proof. intros [b p] o. reflexivity. Qed.
+
 (* one literal assignment is the single-assignment step of Sys/C44SysVars.v (so every theorem about [step] applies) *)
 Theorem single_literal_is_step_session : forall xs s e x v,
   valid_session (base xs) s = true ->
-  (forall sv, lookup reg x = Some sv -> e && scope_eqb (v_scope sv) ScGlobal = false) ->
   (forall sv, lookup reg x = Some sv -> convert (v_type sv) v <> Unm) ->
   exec_stmt reg xs (SSet s [(TgSession e x, SrcVal v)]) = lift (pers xs) (step reg (base xs) (SetSession s x v)).
 Proof.
-  intros xs s e x v Hs He Hu. simpl. rewrite Hs. simpl. unfold build_assign. simpl.
+  intros xs s e x v Hs Hu. unfold exec_stmt. rewrite Hs. cbn [negb build_all]. unfold build_assign, build_target. cbn [fst snd].
   destruct (lookup reg x) as [sv|] eqn:Hl.
-  - rewrite (He sv eq_refl). specialize (Hu sv eq_refl).
-    assert (Hstep : forall r, r = Rejected -> convert (v_type sv) v = Err ->
-              (xs, r) = lift (pers xs) (step reg (base xs) (SetSession s x v))).
-    { intros r -> Hc. simpl. rewrite Hs, Hl. simpl. rewrite (set_value_invalid sv false v Hc).
-      destruct xs; reflexivity. }
-    destruct v as [|b|k z|n d|n d|str|str]; simpl; try reflexivity.
-    + rewrite Hl. destruct (is_system_type (v_type sv)); [|reflexivity].
-      destruct (convert (v_type sv) (GS str)) eqn:Hc; [reflexivity| |contradiction].
-      apply Hstep; auto.
-  - unfold lift. simpl. rewrite Hs, Hl. simpl. destruct xs; reflexivity.
+  - cbv iota. specialize (Hu sv eq_refl).
+    assert (Hrun : exec_list reg xs s [(TgSession e x, SrcVal v)] = lift (pers xs) (step reg (base xs) (SetSession s x v))).
+    { rewrite exec_list_single. reflexivity. }
+    destruct v as [|b|k z|n d|n d|str|str]; cbn [build_source target_var]; cbv iota; try exact Hrun.
+    rewrite Hl. cbv iota. destruct (is_system_type (v_type sv)); cbv iota; [|exact Hrun].
+    destruct (convert (v_type sv) (GS str)) eqn:Hc; cbv iota; [exact Hrun| |contradiction].
+    destruct (invalid_rejected reg (base xs) s x (GS str) sv Hs Hl Hc) as [H1 _]. rewrite H1. symmetry. apply lift_same.
+  - cbv iota. destruct (unknown_rejected reg (base xs) s x v Hs Hl) as [H1 _]. rewrite H1. symmetry. apply lift_same.
 Qed.
 
 Theorem single_literal_is_step_global : forall xs s x v,
@@ -285,17 +286,18 @@ Theorem single_literal_is_step_global : forall xs s x v,
   (forall sv, lookup reg x = Some sv -> convert (v_type sv) v <> Unm) ->
   exec_stmt reg xs (SSet s [(TgGlobal x, SrcVal v)]) = lift (pers xs) (step reg (base xs) (SetGlobal s x v)).
 Proof.
-  intros xs s x v Hs Hu. simpl. rewrite Hs. simpl. unfold build_assign. simpl.
+  intros xs s x v Hs Hu. unfold exec_stmt. rewrite Hs. cbn [negb build_all]. unfold build_assign, build_target. cbn [fst snd].
   destruct (lookup reg x) as [sv|] eqn:Hl.
-  - specialize (Hu sv eq_refl).
-    destruct v as [|b|k z|n d|n d|str|str]; simpl; try reflexivity.
-    rewrite Hl. destruct (is_system_type (v_type sv)); [|reflexivity].
-    destruct (convert (v_type sv) (GS str)) eqn:Hc; [reflexivity| |contradiction].
-    simpl. rewrite Hs, Hl. simpl. rewrite (set_value_invalid sv true (GS str) Hc). destruct xs; reflexivity.
-  - unfold lift. simpl. rewrite Hs, Hl. simpl. destruct xs; reflexivity.
+  - cbv iota. specialize (Hu sv eq_refl).
+    assert (Hrun : exec_list reg xs s [(TgGlobal x, SrcVal v)] = lift (pers xs) (step reg (base xs) (SetGlobal s x v))).
+    { rewrite exec_list_single. reflexivity. }
+    destruct v as [|b|k z|n d|n d|str|str]; cbn [build_source target_var]; cbv iota; try exact Hrun.
+    rewrite Hl. cbv iota. destruct (is_system_type (v_type sv)); cbv iota; [|exact Hrun].
+    destruct (convert (v_type sv) (GS str)) eqn:Hc; cbv iota; [exact Hrun| |contradiction].
+    destruct (invalid_rejected reg (base xs) s x (GS str) sv Hs Hl Hc) as [_ H1]. rewrite H1. symmetry. apply lift_same.
+  - cbv iota. destruct (unknown_rejected reg (base xs) s x v Hs Hl) as [_ H1]. rewrite H1. symmetry. apply lift_same.
 Qed.
 
-Opaque step.
 (* SET SESSION x = DEFAULT assigns the compiled default of x (not the current global value) *)
 Theorem set_default_assigns_compiled_default : forall xs s x sv xs',
   lookup reg x = Some sv ->
@@ -306,7 +308,7 @@ Proof.
   unfold lift in H. destruct (step reg (base xs) (SetSession s x (v_default sv))) as [st' o] eqn:E. simpl in H.
   inversion H. subst.
   destruct (set_session_roundtrip reg (base xs) s x (v_default sv) st' E) as [sv2 [v2 [Hl2 [Hc2 [_ [Hr _]]]]]].
-  rewrite Hl in Hl2. inversion Hl2 as [Hsv]. rewrite <- Hsv in Hc2. exists v2. auto.
+  rewrite Hl in Hl2. inversion Hl2 as [Hsv]. subst sv2. exists v2. split; [exact Hc2|simpl; exact Hr].
 Qed.
 
 (* SET @@SESSION.x = @@GLOBAL.x: the session value becomes convert(what @@GLOBAL.x shows) *)
@@ -341,22 +343,23 @@ Proof.
   rewrite Hs in Hc. rewrite (convert_idempotent_num (v_type sv) _ Hk Hb Ht) in Hc. inversion Hc. subst. exact Hr.
 Qed.
 
-(* SET @u = <anything>: SELECT @u is exactly the value the right-hand side had, whatever its Go type *)
-Theorem user_assign_returns_value : forall xs s u src v xs',
-  valid_session (base xs) s = true -> resolve reg (base xs) s (TgUser u) src = Ok v ->
-  exec_assign reg xs s (TgUser u, src) = (xs', Accepted) /\ xs' = mkX (fst (step reg (base xs) (SetUser s u v))) (pers xs) ->
-  get_user (base xs') s u = RVal v.
-Proof.
-  intros xs s u src v xs' Hs Hr [_ ->]. simpl base.
-  destruct (set_user_roundtrip reg (base xs) s u v Hs) as [_ [Hg _]]. exact Hg.
-Qed.
-
 Theorem user_assign_accepted : forall xs s u src v,
   valid_session (base xs) s = true -> resolve reg (base xs) s (TgUser u) src = Ok v ->
   exec_assign reg xs s (TgUser u, src) = (mkX (fst (step reg (base xs) (SetUser s u v))) (pers xs), Accepted).
 Proof.
   intros xs s u src v Hs Hr. unfold exec_assign. simpl fst. simpl snd. rewrite Hr. unfold lift.
   destruct (set_user_roundtrip reg (base xs) s u v Hs) as [Ha _]. rewrite Ha. reflexivity.
+Qed.
+
+(* SET @u = <literal | @@y | @@GLOBAL.y | @v>: SELECT @u is exactly the value the right-hand side had, whatever its
+   Go type (integer kinds, decimal, float, string, NULL) *)
+Theorem user_assign_returns_value : forall xs s u src v,
+  valid_session (base xs) s = true -> resolve reg (base xs) s (TgUser u) src = Ok v ->
+  let r := exec_assign reg xs s (TgUser u, src) in
+  snd r = Accepted /\ get_user (base (fst r)) s u = RVal v.
+Proof.
+  intros xs s u src v Hs Hr. cbv zeta. rewrite (user_assign_accepted xs s u src v Hs Hr). simpl.
+  split; [reflexivity|]. destruct (set_user_roundtrip reg (base xs) s u v Hs) as [_ [Hg _]]. exact Hg.
 Qed.
 
 Transparent step.
